@@ -152,3 +152,29 @@ End Cov.
 (* the flattened (variable, sample) list that the row / column counters run over *)
 Definition flat (vars : list nat) (index : list (list nat)) : list (nat * nat) :=
   concat (map (fun vl => map (pair (fst vl)) (snd vl)) (combine vars index)).
+
+(* ------------------------------------------------------------------ pair 4, nearest-point migration
+     CalcMigrate::_expandPointToPoint      /repo/src/Calculators/CalcMigrate.cpp  (exhaustive: active samples within dmax, strict "<")
+     CalcMigrate::_expandPointToPointBall  (ball tree on the ACTIVE samples; when the nearest one is beyond dmax, exhaustive search)
+   One candidate per active source sample, for a given target: its rank, its squared distance to the target, and whether it
+   passes st_larger_than_dmax (box or ellipsoid: any predicate). *)
+Record msample := { m_active : bool; m_d2 : Q; m_within : bool }.
+Record mcand := { mc_idx : nat; mc_d2 : Q; mc_in : bool }.
+Definition active_cands (l : list msample) : list mcand :=
+  map (fun ks => {| mc_idx := fst ks; mc_d2 := m_d2 (snd ks); mc_in := m_within (snd ks) |})
+      (filter (fun ks => m_active (snd ks)) (enum_ l)).
+(* "if (dist < distmin) { distmin = dist; iechmin = iech1; }" : the first minimum *)
+Definition amin_step (best : option mcand) (x : mcand) : option mcand :=
+  match best with
+  | None => Some x
+  | Some b => if qltb (mc_d2 x) (mc_d2 b) then Some x else Some b
+  end.
+Definition amin (l : list mcand) : option mcand := fold_left amin_step l None.
+Definition migrate_exhaustive (l : list msample) : option nat :=
+  option_map mc_idx (amin (filter mc_in (active_cands l))).
+(* Ball::queryClosest on the active samples returns their nearest one (C04_ball_nearest) *)
+Definition migrate_ball (l : list msample) : option nat :=
+  match amin (active_cands l) with
+  | None => None
+  | Some a => if mc_in a then Some (mc_idx a) else migrate_exhaustive l
+  end.
